@@ -2,11 +2,11 @@ SPECIFICATION MCSpec
 CONSTANTS QEmptyDel = FALSE
           QEager = FALSE
           QReplayRange = FALSE
-          Keys <- KeysA
+          Keys <- KeysB
           Vals <- ValsB
-          IterPrefixes <- PrefA
+          IterPrefixes <- PrefB
           MaxBatch = 2
-          BatchBounds <- BoundsS
+          BatchBounds <- BoundsB
           DirectWithBatch = 1
           IterWithBatch = 1
 INVARIANTS TypeOK IterSorted HalfOpen ValueSizeExact
